@@ -85,6 +85,7 @@ type Contract struct {
 	Opts      map[string]string
 	Covers    bool
 	Conforms  bool
+	ConformsRepo bool // `conforms repo`: checked against the repository's implementors only; stays assumed for others
 }
 
 type SpecFunc struct {
@@ -604,6 +605,9 @@ func parseSpecs(lines []ContractLine) *Specs {
 				// iface contract checked against every repository implementor
 				cur.Conforms = true
 				cur.Trusted = false
+				if strings.TrimSpace(body) == "repo" {
+					cur.ConformsRepo = true
+				}
 			case "opt":
 				f := strings.SplitN(body, "=", 2)
 				if len(f) == 2 {
